@@ -953,7 +953,14 @@ def l2x_pairs() -> list:
     return [(i, j) for i in range(n) for j in range(i, n)]
 
 
-def run_l2x_pair(i: int, j: int, stats: Stats, viols: list, cap: int = 3000):
+L2X_CREATORS = [0, 3, 4, 6, 7]  # the writer kinds that can create a file that does not exist yet (content writers)
+
+
+def l2x_absent_pairs() -> list:
+    return [(i, j) for a_, i in enumerate(L2X_CREATORS) for j in L2X_CREATORS[a_:]]
+
+
+def run_l2x_pair(i: int, j: int, stats: Stats, viols: list, cap: int = 3000, absent: bool = False):
     """ALL interleavings of two writers at the granularity the property names (switch points: each read of the target,
     each lock operation, the replace), by depth-first enumeration of the schedule tape."""
     ws = canon_writers(L2X_INIT)
@@ -968,7 +975,7 @@ def run_l2x_pair(i: int, j: int, stats: Stats, viols: list, cap: int = 3000):
     prefix: list = []
     n = 0
     while n < cap:
-        case = {"layer": "L2", "init": L2X_INIT, "writers": [wi, wj], "knobs": {"sched": "enum"}, "tape": {"values": list(prefix)},
+        case = {"layer": "L2", "init": None if absent else L2X_INIT, "writers": [wi, wj], "knobs": {"sched": "enum"}, "tape": {"values": list(prefix)},
                 "prop": PROP, "seed": 0, "enumerated": [i, j], "fmode": 0o444 if (i + j) % 2 else 0o644, "cwd": cwd_kind}
         res = run_race(case, stats)
         n += 1
@@ -980,13 +987,13 @@ def run_l2x_pair(i: int, j: int, stats: Stats, viols: list, cap: int = 3000):
         while k >= 0 and vals[k] >= ns[k] - 1:
             k -= 1
         if k < 0:
-            stats.inc("l2x_pairs_exhausted")
+            stats.inc("l2x_pairs_exhausted" if not absent else "l2x_absent_pairs_exhausted")
             break
         prefix = vals[:k] + [vals[k] + 1]
     else:
         stats.inc("l2x_pairs_capped")
     stats.inc("l2x_schedules", n)
-    stats.group("l2x_schedules_per_pair", f"{i}-{j}", n)
+    stats.group("l2x_schedules_per_pair", f"{i}-{j}" + ("-absent" if absent else ""), n)
 
 
 # --------------------------------------------------------------------------- #
@@ -1174,6 +1181,8 @@ def units(tier: str, vseed: int) -> list:
     out = []
     for (i, j) in l2x_pairs():
         out.append({"layer": "L2x", "i": i, "j": j, "start": 0, "count": 1})
+    for (i, j) in l2x_absent_pairs():
+        out.append({"layer": "L2x", "i": i, "j": j, "start": 0, "count": 1, "absent": True})
     for i in range(len(l1f_cases())):
         out.append({"layer": "L1f", "idx": i, "start": i, "count": 1})
     step = 400 if tier == "quick" else 4000
@@ -1200,7 +1209,7 @@ def run_unit(unit: dict):
                              cap=10 ** 9)
         return stats, viols
     if unit["layer"] == "L2x":
-        run_l2x_pair(unit["i"], unit["j"], stats, viols)
+        run_l2x_pair(unit["i"], unit["j"], stats, viols, absent=bool(unit.get("absent")))
         return stats, viols
     if unit["layer"] == "L1f":
         run_l1f(unit["idx"], stats, viols)
@@ -1368,6 +1377,8 @@ def main(tier: str, seed: int, args) -> int:
         "l2x_exhaustive_two_writer_interleavings": {
             "switch_points": "before each open-for-read of the target, each flock operation and each replace onto the target",
             "writer_kinds": 9, "pairs": len(l2x_pairs()), "pairs_exhausted": c.get("l2x_pairs_exhausted", 0),
+            "pairs_of_creators_of_a_file_that_does_not_exist_yet": len(l2x_absent_pairs()),
+            "creator_pairs_exhausted": c.get("l2x_absent_pairs_exhausted", 0),
             "pairs_capped": c.get("l2x_pairs_capped", 0), "schedules": c.get("l2x_schedules", 0),
             "schedules_per_pair": dict(stats.groups.get("l2x_schedules_per_pair", {}))},
         "l2_runs": c.get("l2_runs", 0), "l2_yield_points": c.get("yield_points", 0),
